@@ -379,6 +379,49 @@ def _fact_exprs(must):
     return fact_exprs(must)
 
 
+STATEMENT_HOOKS = {"leave_SimpleStatementLine", "leave_If", "leave_For", "leave_While", "leave_With", "leave_Try", "leave_FunctionDef", "leave_ClassDef",
+                   "leave_Assign", "leave_AnnAssign", "leave_AugAssign", "leave_Expr", "leave_Import", "leave_ImportFrom", "leave_Return", "leave_Assert",
+                   "leave_Global", "leave_Nonlocal", "leave_Pass", "leave_Raise", "leave_Del", "leave_Match"}
+
+
+def rule_multipass_lines(ctx, rep, rule_id="R-MULTIPASS-LINES"):
+    rep.rule(
+        rule_id,
+        "a registered transformer that asks libcst for repeated passes (`should_allow_multiple_passes` -> True) does not itself add or remove "
+        "statement lines (FlattenSentinel / RemovalSentinel returned by one of its own statement hooks): every later pass computes positions on "
+        "the previous pass's output, while `path:line` patterns and tool findings name lines of the original file - a protected site that has "
+        "slid onto another line is rewritten, a permitted one is skipped, and the change entries carry shifted line numbers",
+        min_instances=1,
+    )
+    from .c02 import families
+
+    n = 0
+    seen = set()
+    for tq, tm in families(ctx).items():
+        if tq in seen:
+            continue
+        seen.add(tq)
+        m = tm.methods.get("should_allow_multiple_passes")
+        if m is None or m.cls is None or not m.module.name.startswith(("codemodder", "core_codemods")):
+            continue
+        rets = [r_.value for r_ in walk_no_nested(m.node) if isinstance(r_, ast.Return)]
+        if not rets or all(isinstance(v, ast.Constant) and v.value is False for v in rets):
+            continue
+        n += 1
+        bad = None
+        for e in tm.effects():
+            if e.kind != "return-change" or e.cls != tq and e.cls not in ctx.prog.mro(tq):
+                continue
+            if e.method.name not in STATEMENT_HOOKS:
+                continue
+            if any(w in e.text for w in ("FlattenSentinel", "RemovalSentinel", "RemoveFromParent")):
+                bad = e
+        rep.check(rule_id, tq, bad.method.loc(bad.node) if bad else m.loc(), bad is None, "line-count",
+                  f"multiple passes are enabled and `{bad.text[:60]}` in {bad.method.name} changes the number of statement lines: the next pass gates on shifted lines" if bad else "")
+    if n < 1:
+        raise AnalysisError("no registered transformer enables multiple passes (sql-parameterization confirmed by hand)")
+
+
 def check(ctx, rep):
     rep.explanation = (
         "All 101 registered codemods' transformer classes (71 classes + the helper visitors they drive) are analysed with the "
@@ -397,4 +440,5 @@ def check(ctx, rep):
     rep.rule("R-DISPATCH-KEEPS-UPDATES", "the framework dispatcher hands back the updated node when the line / result filter declines (a declined enclosing node must not revert a permitted nested fix)", 3)
     rule_framework_dispatch_keeps_updates(ctx, rep, "R-DISPATCH-KEEPS-UPDATES")
     rule_gate_unit(ctx, rep)
+    rule_multipass_lines(ctx, rep)
     rep.not_covered += ["fnmatch semantics of `path:line` spellings", "multi-line constructs (match_line requires start == end == line)"]
